@@ -19,7 +19,7 @@ Definition return_to_idle_state : M unit := modify (set_state Idle).
 Definition run_next_statement (fuel : nat) : M unit :=
   modify (set_state Running) ;;;
   h <- has_next_token ;;
-  (if h then evaluate_statement fuel else ret tt) ;;;
+  (if h then evaluate_statement fuel 0 else ret tt) ;;;
   h2 <- has_next_token ;;
   if h2 then ret tt
   else
@@ -124,6 +124,7 @@ Fixpoint list_lines (keys : list N) (toks : list (N * list token)) : res (list b
 Definition process_command (fuel : nat) (c : command) : M unit :=
   match c with
   | CRun =>
+      modify (set_input None) ;;;
       modify (set_variables []) ;;;
       modify (set_arrays []) ;;;
       run_from_first_numbered_line ;;;
@@ -137,17 +138,6 @@ Definition process_command (fuel : nat) (c : command) : M unit :=
   | CNoTrace => modify (fun s => set_flags (enable_warnings s) false s)
   | CInternals => push_output (OPrint (bs "<INTERNALS>"))      (* Debug text: not modelled *)
   | CStats => push_output (OPrint (bs "<STATS>"))              (* allocator statistics: not modelled *)
-  end.
-
-(* populate_error_location (program.rs:622-636) *)
-Definition populate_error_location (e : ierror) (l : option location) (s : interp) : option location :=
-  match l with
-  | Some _ => l
-  | None =>
-      match e with
-      | EDataTypeMismatch => get_data_location s
-      | _ => Some (prev_location (loc s))
-      end
   end.
 
 (* postprocess_result (interpreter.rs:189-200) *)
